@@ -70,31 +70,37 @@ End CleanText.
 
 (* ---------- html cleaner on an element-tree model ---------- *)
 (* lxml.html tree as seen by  //text()[normalize-space() and not(parent::style
-   | parent::link | parent::head | parent::script)] : every element has a tag,
-   a text (before the first child), children, and each child has a tail. *)
+   | parent::link | ancestor::head | parent::script)]  (as repaired: every text
+   nested in <head>, e.g. the <title>, is excluded, not only head's own text):
+   every element has a tag, a text (before the first child), children, and each
+   child has a tail. *)
 Inductive node :=
 | Elem (tag : str) (text : str) (children : list (node * str)).  (* child, tail *)
 
 Section Html.
   Variable ws : N -> bool.            (* XPath whitespace: space, \t, \n, \r *)
   Variable hidden : str -> bool.      (* tag in {style, link, head, script} *)
+  Variable is_head : str -> bool.     (* tag = head *)
 
   Definition nonblank (s : str) : bool := existsb (fun c => negb (ws c)) s.
 
   (* text nodes in document order that satisfy the predicate; the tail of a
      child belongs to the *parent* element (XPath parent axis of a tail text
-     node is the enclosing element) *)
-  Fixpoint visible (n : node) : list str :=
+     node is the enclosing element); inh = some proper ancestor is <head> *)
+  Fixpoint visible_in (inh : bool) (n : node) : list str :=
     match n with
     | Elem tag text children =>
-        let own (s : str) := if negb (hidden tag) && nonblank s then [s] else [] in
+        let own (s : str) := if negb (hidden tag || inh) && nonblank s then [s] else [] in
+        let inh' := inh || is_head tag in
         own text ++
         (fix kids (l : list (node * str)) : list str :=
            match l with
            | [] => []
-           | (c, tail) :: l' => visible c ++ own tail ++ kids l'
+           | (c, tail) :: l' => visible_in inh' c ++ own tail ++ kids l'
            end) children
     end.
+
+  Definition visible (n : node) : list str := visible_in false n.
 
   Fixpoint join_sp (l : list str) : str :=
     match l with
